@@ -312,12 +312,14 @@ def job_oil(job):
         job.validate("density_Standing", evalf(pr.value, env, ufs), float(ro.density_Standing(*[env[k] for k in ("T", "p", "api", "gg", "rsi")])), inputs=env)
 
 
-def replay_oil_array(model, dtype="f8", two_d=False):
+def replay_oil_array(model, dtype="f8", two_d=False, int_gor=False):
     """density_Standing on a pressure array listed from high to low, element by element against the library's own scalar
     R_s and B_o at the same pressure."""
     import numpy as np
     from bluebonnet.fluids import oil
     m = model_floats(model, ["T", "p1", "p2", "api", "gg", "rsi"], default=dict(T=200.0, p1=1500.0, p2=4000.0, api=35.0, gg=0.8, rsi=650.0))
+    if int_gor:
+        m["rsi"] = int(round(m["rsi"]))          # the initial GOR as a Python int (650, as every docstring example writes it)
     lo, hi = sorted((m["p1"], m["p2"]))
     pb = float(oil.pressure_bubblepoint_Standing(m["T"], m["api"], m["gg"], m["rsi"]))
     cands = [[hi, lo]]
@@ -348,7 +350,7 @@ def replay_oil_array(model, dtype="f8", two_d=False):
     return bool(problems), {"what": "; ".join(problems[:2]) or "array density consistent with scalar R_s, B_o", "inputs": m}
 
 
-def job_oil_array(job, dtype="f8", two_d=False):
+def job_oil_array(job, dtype="f8", two_d=False, int_gor=False):
     """The oil identity for the values a caller gets back from an array call: density_Standing on two pressures listed
     from high to low (a depletion sequence), each element against the library's own scalar R_s and B_o at that pressure."""
     import bluebonnet.fluids.oil as _ro
@@ -357,13 +359,13 @@ def job_oil_array(job, dtype="f8", two_d=False):
     oil = load_sym("bluebonnet.fluids.oil", oil_compressibility_undersat_Spivey=sp)
     job.encoded(oil, "density_Standing", "solution_gor_Standing", "b_o_Standing")
     job.stub("oil_compressibility_undersat_Spivey: positive uninterpreted function")
-    vs, dom = box(job, T=(80, 350), p1=("14.7", 20000), p2=("14.7", 20000), api=(12, 55), gg=("0.56", "1.3"), rsi=(20, 2500))
+    vs, dom = box(job, _integer=("rsi",) if int_gor else (), T=(80, 350), p1=("14.7", 20000), p2=("14.7", 20000), api=(12, 55), gg=("0.56", "1.3"), rsi=(20, 2500))
     dom = dom + [T.b_lt(P(vs["p1"]), P(vs["p2"]))]
     T_, api, gg, rsi = vs["T"], vs["api"], vs["gg"], vs["rsi"]
     ps = [vs["p2"], vs["p1"]]
 
-    dtag = ("" if dtype == "f8" else ", int64 pressure array") + (", pressures as a 1 x 2 array" if two_d else "")
-    rpo = (replay_oil_array, {"dtype": dtype, "two_d": two_d})
+    dtag = ("" if dtype == "f8" else ", int64 pressure array") + (", pressures as a 1 x 2 array" if two_d else "") + (", initial GOR a Python int" if int_gor else "")
+    rpo = (replay_oil_array, {"dtype": dtype, "two_d": two_d, "int_gor": int_gor})
 
     def mkarr():
         return SymArray([SymArray(list(ps), dtype)], dtype, (1, 2)) if two_d else SymArray(list(ps), dtype)
@@ -427,4 +429,5 @@ def jobs(tier):
     return [("gas-density", job_gas_density), ("gas-compressibility", job_gas_compressibility),
             ("gas-viscosity", job_viscosity), ("oil-density", job_oil), ("water-density", job_water),
             ("gas-through-the-facade", job_facade_gas), ("oil-density-array", job_oil_array), ("oil-density-array-int64", lambda j: job_oil_array(j, "i8")),
-            ("oil-through-the-facade-reassigned", job_facade_oil_reassigned), ("oil-density-array-1x2", lambda j: job_oil_array(j, "f8", True))]
+            ("oil-through-the-facade-reassigned", job_facade_oil_reassigned), ("oil-density-array-1x2", lambda j: job_oil_array(j, "f8", True)),
+            ("oil-density-array-int-gor", lambda j: job_oil_array(j, "f8", False, True))]
